@@ -14,7 +14,7 @@ use crate::spec::D32;
 use crate::trap;
 
 const VENDORS: [&str; 6] = ["com.example", "org.acme", "com.example.sub", "", "com.Example", "ORG.ACME"];
-const CONFORMS: [&str; 3] = ["https://example.com/v1", "https://example.com/v2", "urn:x"];
+const CONFORMS: [&str; 5] = ["https://example.com/v1", "https://example.com/v2", "urn:x", "", "URN:X"];
 
 fn err_kind(e: &anyhow::Error) -> String {
     match e.downcast_ref::<EnvelopeError>() {
@@ -215,6 +215,24 @@ pub fn run(ctx: &mut Ctx) {
                 ctx.count("malformed_attachments");
                 let a = Envelope::new_assertion(known_values::ATTACHMENT, o);
                 let holder = base.add_assertion_envelope(a.clone()).unwrap();
+                // ... also by the FILTERED queries of an envelope that holds it next to good ones, whether or
+                // not the filter would select the malformed one
+                let holder2 = e.add_assertion_envelope(a.clone()).unwrap_or(holder.clone());
+                for (fv, fc) in [(None, None), (Some("no.such.vendor"), None), (None, Some("no-such-format")), (Some(v.as_str()), None), (Some("second.vendor"), None)] {
+                    ctx.count("filtered_queries_over_malformed");
+                    match trap::guard(|| (holder2.attachments_with_vendor_and_conforms_to(fv, fc).is_ok(), holder2.attachment_with_vendor_and_conforms_to(fv, fc).map(|_| ()))) {
+                        Ok((list_ok, single)) => {
+                            let single_invalid = match &single {
+                                Ok(()) => false,
+                                Err(err) => !matches!(err.downcast_ref::<bc_envelope::EnvelopeError>(), Some(bc_envelope::EnvelopeError::NonexistentAttachment) | Some(bc_envelope::EnvelopeError::AmbiguousAttachment)),
+                            };
+                            if list_ok || !single_invalid {
+                                ctx.violation(&format!("malformed-accepted/filtered/{}", label), &format!("an envelope holding a malformed attachment ({}) answered a filtered query (vendor={:?} conformsTo={:?}) without reporting it invalid", label, fv, fc), jhex(&holder2));
+                            }
+                        }
+                        Err(p) => ctx.violation(&format!("malformed/panic/{}", p.signature()), &format!("{:?}", p), jhex(&holder2)),
+                    }
+                }
                 let r1 = trap::guard(|| a.validate_attachment());
                 let r2 = trap::guard(|| holder.attachments());
                 match (r1, r2) {
